@@ -161,7 +161,11 @@ def run_model(mode: str, lines: list[str], timeout: float = 1800) -> list[str]:
         if "\n" in ln:
             raise Infra("newline inside a protocol line")
     data = "\n".join(lines) + "\n"
-    if _DRIVER_BIN.exists():
+    dev = LEAN / f"dev_{mode}.lean"
+    if dev.exists():
+        # a mode under development: standalone `def main` run by the interpreter
+        cmd = ["lake", "env", "lean", "--run", dev.name]
+    elif _DRIVER_BIN.exists():
         cmd = [str(_DRIVER_BIN), mode]
     else:
         cmd = ["lake", "env", "lean", "--run", "Driver.lean", mode]
